@@ -85,7 +85,7 @@ def run(ctx):
                         "ASCII words and hashtags only (TLC's JSON reader maps other characters to '?')",
                         "'used' words = words wholly inside a pattern match of the candidate sequence the returned resolution was built from"]
     ctx.mc("Subject", "MC_Subject.cfg")
-    inerts = [w for w in G.INERT_CANDIDATES if inert(w)]
+    inerts = [w for w in G.INERT_CANDIDATES if inert(w) and w.isascii()]
     cases = []
     shapes = set()
     for n in range(1, 6):
